@@ -18,7 +18,9 @@ type Harness struct {
 	ExtraPkgs []string
 	// InitPkgs: package dirs whose initialisers are executed (the harness package always is)
 	InitPkgs []string
-	Assumes  []string
+	// InitAbs: full import paths (standard library / vendored) whose initialisers are executed
+	InitAbs []string
+	Assumes []string
 	// NoReplay: counterexamples of this harness cannot be replayed natively by calling the
 	// harness itself (never the case for registered harnesses unless stated)
 	NoReplay bool
